@@ -283,7 +283,7 @@ class Run:
 
     def other_lines(self):
         """add_compound_data, AtomicNumberToSymbol, SymbolToAtomicNumber, NULL"""
-        r = self.rng; out = ['null']
+        r = self.rng; out = ['null', 's2znull']
         for z in range(-3, 126): out.append('z2s %d' % z)
         for s in self.syms:
             out.append('s2z ' + G.esc(s.encode()))
@@ -548,6 +548,9 @@ class C07:
                 body += '# theorems that no longer check: %s\n# %s\n' % (', '.join(rep['proof_broken']), rep.get('proof_log', '').replace('\n', '\n# '))
             for tb in rep['tie_broken']: body += '# correspondence broken: %s\n' % tb
             for pb in rep['problems']: body += '# %s\n' % pb
+            if mism and not replay:
+                small = self.shrink_mismatch(R, sorted(mism, key=lambda x: len(x[0]))[0][0])
+                body += '# smallest disagreement found (shrunk): impl: %s | model: %s\n%s\n' % (small[1][:300], small[2][:300], small[0])
             for l, c, m in mism[:50]: body += '%s\n' % l
             path = core.write_replay(ctx, body)
             print('VIOLATION property=%s replay=%s no-failing-input-found' % (ID, path))
@@ -602,6 +605,23 @@ class C07:
             if not cands: break
             res = bad(cands)
             hit = [r for r in res if r]
+            if not hit: break
+            best = min(hit, key=lambda r: len(r[0])); cur = G.unesc(best[0].split(' ')[2])
+        return best
+
+    def shrink_mismatch(self, R, line):
+        """greedy substring deletion on a parse line while model and library still disagree"""
+        c0 = R.run_c([line])[0]; m0 = R.run_model([line])[0]
+        best = (line, c0, m0)
+        if not line.startswith('parse '): return best
+        locname = line.split(' ')[1]; cur = G.unesc(line.split(' ')[2])
+        for _ in range(40):
+            cands = [cur[:i] + cur[j:] for i in range(len(cur)) for j in range(i + 1, min(len(cur), i + 12) + 1)]
+            cands = [c for c in dict.fromkeys(cands) if c]
+            if not cands: break
+            ls = ['parse %s %s' % (locname, G.esc(b)) for b in cands]
+            co = R.run_c(ls); mo = R.run_model(ls)
+            hit = [(l, c, m) for l, c, m in zip(ls, co, mo) if not agree(l, c, m, {})]
             if not hit: break
             best = min(hit, key=lambda r: len(r[0])); cur = G.unesc(best[0].split(' ')[2])
         return best
